@@ -576,6 +576,34 @@ pub fn apply_op<T: Source + std::hash::Hash + PartialEq + Eq + 'static>(
   }
 }
 
+thread_local! {
+  #[allow(clippy::type_complexity)]
+  static CACHED_POOL: std::cell::RefCell<Option<Vec<(Spec, (BoxSource, usize))>>> = const { std::cell::RefCell::new(None) };
+}
+
+/// Turn sharing of CachedSource instances on (with an empty pool) or off for
+/// the builds that follow on this thread: with sharing on, a `Cached` node
+/// whose inner spec equals that of a `Cached` node built earlier is not built
+/// again but is the same object or a clone of it (both share the cache), as
+/// when a bundler uses one cached module source at several places.
+pub fn share_cached_instances(on: bool) {
+  CACHED_POOL.with(|p| *p.borrow_mut() = if on { Some(Vec::new()) } else { None });
+}
+
+/// Number of `Cached` nodes that were answered from the pool since sharing
+/// was switched on.
+pub fn shared_cached_hits() -> usize {
+  CACHED_POOL.with(|p| p.borrow().as_ref().map_or(0, |v| v.iter().map(|e| e.1 .1).sum()))
+}
+
+fn pool_cached(inner: &Spec, built: &BoxSource) {
+  CACHED_POOL.with(|p| {
+    if let Some(v) = p.borrow_mut().as_mut() {
+      v.push((inner.clone(), (built.clone(), 0)));
+    }
+  });
+}
+
 /// Hook applied to every node while building (used to wrap children in
 /// instrumented sources). Identity by default.
 pub type Wrap<'w> = &'w dyn Fn(&Spec, BoxSource) -> BoxSource;
@@ -686,16 +714,42 @@ pub fn build_with(spec: &Spec, wrap: Wrap) -> Built {
         }
       }
     }
+    Spec::Cached { inner }
+      if CACHED_POOL.with(|p| {
+        p.borrow().as_ref().is_some_and(|v| v.iter().any(|(k, _)| k == &**inner))
+      }) =>
+    {
+      // instance sharing: an equal CachedSource was built before; use the
+      // same object (even occurrences) or a clone of it (odd), both share
+      // the cache with the first occurrence
+      let (prev, n) = CACHED_POOL.with(|p| {
+        let mut p = p.borrow_mut();
+        let v = p.as_mut().unwrap();
+        let e = v.iter_mut().find(|(k, _)| k == &**inner).unwrap();
+        e.1 .1 += 1;
+        (e.1 .0.clone(), e.1 .1)
+      });
+      if n % 2 == 0 {
+        other(prev)
+      } else {
+        let c: Box<dyn Source> = dyn_clone::clone_box(&*prev);
+        other(BoxSource::from(c))
+      }
+    }
     Spec::Cached { inner } => match build_with(inner, wrap) {
       Built::Concat(cs) => {
         let c = CachedSource::new(cs);
         register_peeker(&c);
-        other(c.boxed())
+        let b = c.boxed();
+        pool_cached(inner, &b);
+        other(b)
       }
       Built::Other(b) => {
         let c = CachedSource::new(b);
         register_peeker(&c);
-        other(c.boxed())
+        let b = c.boxed();
+        pool_cached(inner, &b);
+        other(b)
       }
     },
     Spec::Boxed { inner } => {
